@@ -147,6 +147,16 @@ def run_poses(case):
             views_ok = True
         if not views_ok:
             out.fail('pose:views-disagree', '%s: %s' % (desc, name))
+        # a quaternion names a rotation whatever its length (an average of quaternions, a rounded one ...): same pose, proper rotation
+        for scale in (case.get('qscale', 1.0), -1.0):
+            try:
+                Q = Pose.from_quat(np.array(P.rot_quat, dtype=float) * scale, P.translation)
+            except Exception as e:  # noqa
+                out.fail('pose:views-raise', '%s: %s: quaternion scaled by %r: %r' % (desc, name, scale, e))
+                continue
+            if not _peq(Q, P, 1e-8):
+                out.fail('pose:views-disagree:scaled-quaternion', '%s: %s: from_quat of the quaternion scaled by %r gives rotation %r, pose has %r' % (
+                    desc, name, scale, Q.rot_matrix.tolist(), P.rot_matrix.tolist()))
         Rm, tv = P.matrix_vec
         if Rm is not P.rot_matrix and np.max(np.abs(Rm - P.rot_matrix)) > 0:
             out.fail('pose:matrix-vec', desc)
@@ -235,7 +245,8 @@ def _rotvec(draw):
 _trans = st.lists(st.one_of(st.floats(-10, 10, allow_nan=False), st.sampled_from([0.0, 1.0, -10.0])), min_size=3, max_size=3)
 _pose = st.one_of(st.fixed_dictionaries({'r': _rotvec(), 't': _trans}), st.fixed_dictionaries({'r': _rotvec(), 't': _trans}),
                   st.fixed_dictionaries({'m': st.integers(0, 23), 't': _trans}))
-pose_strategy = st.fixed_dictionaries({'A': _pose, 'B': _pose, 'C': _pose, 'point': _trans, 'scale': st.sampled_from([0.5, 2.0, 1.26, 1.0, 0.2, 5.0])})
+pose_strategy = st.fixed_dictionaries({'A': _pose, 'B': _pose, 'C': _pose, 'point': _trans, 'scale': st.sampled_from([0.5, 2.0, 1.26, 1.0, 0.2, 5.0]),
+                                       'qscale': st.sampled_from([1.0, 2.0, 0.5, 1.001, 0.999, 1e-3, 37.0])})
 
 
 # ---------------------------------------------------------------- solver projection
